@@ -111,6 +111,7 @@ type P struct {
 	Peer    interface{}
 	Say     string
 	N       int
+	Note    string // (the GraphQL field declares a required argument; a struct field takes none)
 	id      string
 	code    string
 }
@@ -146,6 +147,9 @@ func newP(b Backend, id string) P {
 	}
 	if v, _ := b.ReflResolve(id, "code", nil); v != nil {
 		p.code, _ = v.(string)
+	}
+	if v, _ := b.ReflResolve(id, "note", nil); v != nil {
+		p.Note, _ = v.(string)
 	}
 	return p
 }
